@@ -11,6 +11,7 @@ mod bn;
 mod drv;
 mod fxgraph;
 mod fxref;
+mod histgraph;
 mod keys;
 mod par;
 mod props;
